@@ -12,7 +12,8 @@ def filter_cells(cells):
 
 
 def aggregate(prop, results, *, assumptions, bounds, outside, stubs=(), extra_violations=(),
-              extra_errors=(), extra=None, level="model_checking", stub_validation=None):
+              extra_errors=(), extra=None, level="model_checking", stub_validation=None,
+              explanation=None):
     viol, errors, inconcl = [], [], []
     decided = refuted = 0
     paths = confirmed = unknown = witnesses = reached = queries = decisions = 0
@@ -78,6 +79,8 @@ def aggregate(prop, results, *, assumptions, bounds, outside, stubs=(), extra_vi
                cells_total=len(results), cells_decided=decided, cells_refuted=refuted,
                cells_inconclusive=len(inconcl), unknown_leaves=unknown,
                assertions_reached=reached)
+    if explanation:
+        cov["explanation"] = explanation
     ex = dict(functions_encoded=funcs, source_sha256=chx.source_hashes(set(files)),
               bounds=bounds, outside_bounds=outside, cells=cells_ev, queries=queries,
               solver_s=round(solver_s, 2), cpu_s=round(cpu_s, 1), stubs=list(stubs),
